@@ -10,11 +10,12 @@
 //!                 (<lines> = `-` or `a<no>:<hex>` | `d<no>:<hex>` | `c<old>.<new>:<hex>` joined by `,`)
 //!   diff <tree> <tree>   git computes the diff between the two trees (libgit2 `diff_tree_to_tree` + rename/copy
 //!                 detection as radicle-surf does), real `Diff::encode`, real `Diff::decode` (libgit2's patch
-//!                 parser), compare files / change kinds / hunks -> ok | mismatch | decode-err | encode-err
+//!                 parser), compare files / change kinds / hunks -> `checked` (the verdict is the oracle's: the
+//!                 whole-diff decoder is not modelled, so there is no model output to compare with)
 //!                 (<tree> = `-` or `<path>:<f|x>:<hex content>` joined by `,`)
 //!   <hunk> = <header>|<lines>|<o1>-<o2>|<n1>-<n2>
 //!
-//! The model covers hunk header / line / hunk level; for `diff` cases the driver only answers `ok` (the
+//! The model covers hunk header / line / hunk level; for `diff` cases the driver only answers `checked` (the
 //! whole-diff decoder is libgit2, not modelled). Every hunk git produces in a `diff` case is also recorded as
 //! a derived `rt` case, so that the model's bytes are compared with the real bytes on real hunks.
 
@@ -232,56 +233,85 @@ fn run_diff(old: &TreeSpec, new: &TreeSpec) -> (Outcome, Vec<Hunk<Modification>>
         };
         if let Some(why) = excluded {
             // Outside the property's hypothesis (the encoder marks these unimplemented).
-            return (finish(Outcome::new("ok").tag(why).trivial()), vec![]);
+            return (finish(Outcome::new("checked").tag(why).trivial()), vec![]);
         }
-        let text = match catch(|| diff.to_unified_string()) {
-            Ok(Ok(t)) => t,
-            Ok(Err(e)) => {
-                return (
-                    finish(Outcome::new("encode-err").violation("diff-encode-error", format!("encoding failed: {e}"))),
-                    hunks,
-                )
+        // Files whose header carries no file mode in the text form (known finding
+        // `renamed-file-not-decodable`): checked apart from the others.
+        let has_moved = diff.files().any(|f| matches!(f, FileDiff::Moved(_)));
+        let mut o = Outcome::new("checked");
+        o.nontrivial = diff.files().count() > 0;
+        // Round trip of one text: Ok(()) or (class, message).
+        let round_trip = |what: &str, text: Result<Result<String, String>, String>, expect: &Summary, moved: bool| -> Result<(), (String, String)> {
+            let text = match text {
+                Ok(Ok(t)) => t,
+                Ok(Err(e)) => return Err(("diff-encode-error".into(), format!("{what}: encoding failed: {e}"))),
+                Err(msg) => return Err(("diff-encode-panic".into(), format!("{what}: encoding panicked: {msg}"))),
+            };
+            let shown: String = text.chars().take(500).collect();
+            let decoded = match catch(|| Diff::parse(&text)) {
+                Ok(Ok(d)) => d,
+                Ok(Err(e)) => {
+                    let e = e.to_string();
+                    let class = if moved && e.contains("unknown file mode") {
+                        "renamed-file-not-decodable"
+                    } else {
+                        "diff-decode-error"
+                    };
+                    return Err((class.into(), format!("{what}: decoding the encoded diff failed: {e}; text={shown:?}")));
+                }
+                Err(msg) => return Err(("diff-decode-panic".into(), format!("{what}: decoding panicked: {msg}"))),
+            };
+            let got = summary(&decoded);
+            if &got == expect {
+                return Ok(());
             }
-            Err(msg) => {
-                return (
-                    finish(Outcome::new("encode-err").violation("diff-encode-panic", format!("encoding panicked: {msg}"))),
-                    hunks,
-                )
-            }
-        };
-        let decoded = match catch(|| Diff::parse(&text)) {
-            Ok(Ok(d)) => d,
-            Ok(Err(e)) => {
-                return (
-                    finish(
-                        Outcome::new("decode-err")
-                            .violation("diff-decode-error", format!("decoding the encoded diff failed: {e}; text={text:?}")),
-                    ),
-                    hunks,
-                )
-            }
-            Err(msg) => {
-                return (
-                    finish(Outcome::new("decode-err").violation("diff-decode-panic", format!("decoding panicked: {msg}"))),
-                    hunks,
-                )
-            }
-        };
-        let (a, b) = (summary(&diff), summary(&decoded));
-        let mut o = if a == b {
-            Outcome::new("ok")
-        } else {
-            let what = a
+            // Same files, kinds, lines, and headers equal up to trailing whitespace?
+            let relaxed = |s: &Summary| -> Summary {
+                s.iter()
+                    .map(|(k, p, hs)| {
+                        (k.clone(), p.clone(), hs.iter().map(|(h, l)| (trim_end(h).into_bytes(), l.clone())).collect())
+                    })
+                    .collect()
+            };
+            let class = if relaxed(&got) == relaxed(expect) {
+                "hunk-header-trailing-unicode-whitespace"
+            } else {
+                "diff-roundtrip-mismatch"
+            };
+            let first = expect
                 .iter()
-                .zip(b.iter())
+                .zip(got.iter())
                 .find(|(x, y)| x != y)
                 .map(|(x, y)| format!("first difference: {:?} vs {:?}", x, y))
-                .unwrap_or_else(|| format!("{} files vs {} files", a.len(), b.len()));
-            let mut what: String = what.chars().take(600).collect();
-            what.push_str(&format!(" text={:?}", text.chars().take(400).collect::<String>()));
-            Outcome::new("mismatch").violation("diff-roundtrip-mismatch", what)
+                .unwrap_or_else(|| format!("{} files vs {} files", expect.len(), got.len()));
+            let first: String = first.chars().take(600).collect();
+            Err((class.into(), format!("{what}: {first} text={shown:?}")))
         };
-        o.nontrivial = diff.files().count() > 0;
+        let whole = round_trip("whole diff", catch(|| diff.to_unified_string().map_err(|e| e.to_string())), &summary(&diff), has_moved);
+        match whole {
+            Ok(()) => o = o.tag("whole-diff-round-trips"),
+            Err((class, msg)) if class == "renamed-file-not-decodable" => {
+                o = o.violation(class, msg);
+                // The other files are still held to the property, one by one.
+                let all = summary(&diff);
+                for (f, s) in diff.files().zip(all.iter()) {
+                    if matches!(f, FileDiff::Moved(_)) {
+                        continue;
+                    }
+                    let expect = vec![s.clone()];
+                    let r = round_trip(
+                        &format!("file {:?}", s.1),
+                        catch(|| f.to_unified_string().map_err(|e| e.to_string())),
+                        &expect,
+                        false,
+                    );
+                    if let Err((class, msg)) = r {
+                        o = o.violation(class, msg);
+                    }
+                }
+            }
+            Err((class, msg)) => o = o.violation(class, msg),
+        }
         (finish(o), hunks)
     })
 }
